@@ -13,7 +13,7 @@
 //   rotate                         `writer = PacketWriter(other_path, lt)` (move assignment onto the live writer, the
 //                                  usual way to start the next file): the first file must be complete and nothing leak
 //   chop <k>                       truncates the file by k bytes
-//   read k=v ...                   api=next|loop|iter  filt=none|empty|cfg|ctor|post  raw=0|1  src=name|fp  mv=0|1
+//   read k=v ...                   api=next|loop|iter  filt=none|empty|cfg|ctor|post  raw=0|1  src=name|fp  mv=0|1  tog=K (api=next: raw mode flipped after K packets)
 //                                  max=<n> stop=<k> thr=<i>:<mal|nf>,...  cb=packet|pdu   f=<filter text to end of line>
 //   offline <how> f=<filter>       OfflinePacketFilter over the frames read back as RawPDU (how = pdu | buf)
 //
@@ -328,12 +328,15 @@ static BaseSniffer::PcapSniffingMethod method_of(const std::string& m) {
 }
 
 // drain with next_packet until a null packet; returns the end marker
-static std::string drain(FileSniffer& sn, std::vector<std::string>& out) {
+static std::string drain(FileSniffer& sn, std::vector<std::string>& out, long tog = 0, bool raw_after = false) {
     try {
+        long n = 0;
         while (true) {
             Packet p = sn.next_packet();
             if (!p) break;
             out.push_back(show_pkt(&p.timestamp(), *p.pdu()));
+            // tog=K: after the K-th delivered packet the user switches the raw mode of the live sniffer
+            if (tog && ++n == tog) sn.set_extract_raw_pdus(raw_after);
         }
         Packet again = sn.next_packet();          // the end is sticky
         return again ? "eof-then-packet" : "eof";
@@ -399,7 +402,7 @@ static std::string do_read(Case& c, const std::string& line) {
         std::vector<std::string> first, rest;
         std::string end1 = "-", end2 = "-";
         if (api == "next") {
-            end1 = drain(*sn, first);
+            end1 = drain(*sn, first, kv.count("tog") ? std::stol(kv["tog"]) : 0, !raw);
         } else if (api == "loop") {
             long count = 0;
             Script s = { &first, stop, &thr, &count };
